@@ -15,7 +15,8 @@ From Boltons Require Import Lib.Prelude Lib.C03_Syntax Lib.C03_Conc Model.C03_Mo
 
 Record c03_run := mkRun {
   ru_order : list (nat * nat);      (* (thread, index of its operation) per outermost lock acquisition *)
-  ru_out : outcome
+  ru_out : outcome;
+  ru_calls : nat                    (* how many times on_miss was called during the run *)
 }.
 
 Record c03_case := mkCase {
@@ -88,8 +89,13 @@ Definition run_agree (c : c03_case) (r : c03_run) : bool :=
   | None => false
   end.
 
-Definition run_holds (c : c03_case) (r : c03_run) : bool :=
+(* the property as stated (returned values, contents, eviction order, size) *)
+Definition run_holds_core (c : c03_case) (r : c03_run) : bool :=
   spec_holds (case_rcfg c) (ca_init c) (ca_progs c) (ru_out r).
+
+(* ... and the number of on_miss calls is the one of some accepted interleaving (Spec.calls_ok) *)
+Definition run_holds (c : c03_case) (r : c03_run) : bool :=
+  run_holds_core c r && calls_ok (case_rcfg c) (ca_init c) (ca_progs c) (ru_out r) (ru_calls r).
 
 (* well-formedness of a case, as the harness generates them: max_size >= 1, the dict literals of
    `c == {...}` have distinct keys, key tokens are below 100 (the probe's fresh keys are 100, 101 ...).
@@ -107,9 +113,10 @@ Definition wf_caseb (c : c03_case) : bool :=
 Definition c03_verdict (c : c03_case) : verdict :=
   (wf_caseb c && forallb (run_agree c) (ca_runs c), forallb (run_holds c) (ca_runs c), false).
 
-(* for replay files: per run (agree, holds, the interleaving the reference accepts, what the
-   model computes in the observed lock order) *)
+(* for replay files: per run (agree, holds as stated, on_miss call count acceptable, the interleaving
+   the reference accepts, what the model computes in the observed lock order) *)
 Definition c03_explain (c : c03_case) :=
-  map (fun r => (run_agree c r, run_holds c r,
+  map (fun r => (run_agree c r, run_holds_core c r,
+                 calls_ok (case_rcfg c) (ca_init c) (ca_progs c) (ru_out r) (ru_calls r),
                  serial_witness (case_rcfg c) (ca_init c) (ca_progs c) (ru_out r),
                  model_outcome gen_table c (ru_order r))) (ca_runs c).
